@@ -386,8 +386,12 @@ impl<S: SelfEmulation> VerifierGadget<S> {
 
         let instance_evals = {
             let instance_queries = cs.instance_queries();
-            let min_rotation = instance_queries.iter().map(|(_, rot)| rot.0).min().unwrap();
-            let max_rotation = instance_queries.iter().map(|(_, rot)| rot.0).max().unwrap();
+            // As in the off-circuit verifier, the range of rotations always contains 0
+            // (and a circuit may have no instance query at all).
+            let min_rotation =
+                instance_queries.iter().map(|(_, rot)| rot.0).min().unwrap_or(0).min(0);
+            let max_rotation =
+                instance_queries.iter().map(|(_, rot)| rot.0).max().unwrap_or(0).max(0);
 
             let max_instance_len =
                 assigned_instances.iter().map(|instance| instance.len()).max().unwrap_or(0);
